@@ -85,11 +85,11 @@ T_Ev ==
                  /\ UNCHANGED <<sent, endSent, endRcvd, excused>>
             [] Cur.k = "endrcvd" ->
                  /\ endRcvd[p] = "none" /\ Cur.at = rcvd[p]
-                 /\ \/ EndRcvdAllowed(p, Cur.kind, endSent, rcvd, sent)
-                    \* an exchange cut by sozu itself while a listed deviation holds
-                    \/ Cur.kind = "abort" /\ SozuCut
+                 /\ \/ EndRcvdAllowed(p, Cur.kind, endSent, rcvd, sent) /\ UNCHANGED excused
+                    \* an exchange cut by sozu itself while a listed deviation holds: the message is not judged further
+                    \/ Cur.kind = "abort" /\ SozuCut /\ excused' = TRUE
                  /\ endRcvd' = [endRcvd EXCEPT ![p] = Cur.kind]
-                 /\ UNCHANGED <<sent, rcvd, endSent, excused>>
+                 /\ UNCHANGED <<sent, rcvd, endSent>>
             [] Cur.k \in {"stall", "sendstall", "missing"} ->
                  /\ StallExcused
                  /\ excused' = TRUE
@@ -116,7 +116,7 @@ TraceAccepted ==
   /\ TRUE
 
 \* the recorded steps are steps of the observable spec, and the safety part of C01 holds in every state reached
-T_C01_Obs == [][ObsNext \/ hdr' # hdr \/ excused']_<<obs, hdr>>
+T_C01_Obs == [][ObsNext \/ hdr' # hdr \/ excused' \/ (hdr > 0 /\ SozuCut)]_<<obs, hdr>>
 T_C01_Prefix == \A p \in Pipes : rcvd[p] <= sent[p]
 T_C01_CleanEnd == excused \/ P_C01_CleanEnd
 =============================================================================
